@@ -127,6 +127,34 @@ func streamCorpus() []CFrame {
 	add("publish.nonminimal-rl4", append([]byte{pb[0], pb[1] | 0x80, 0x80, 0x80, 0x00}, pb[2:]...), 3)
 	ca := mustEncode(minimalPacket(2), spec.Form{})
 	add("connack.nonminimal-rl3", append([]byte{ca[0], ca[1] | 0x80, 0x80, 0x00}, ca[2:]...), 2)
+	// non-minimal variable byte integers INSIDE the body (property length,
+	// subscription identifier): whether accepted or not, exactly the frame
+	// is consumed and fragmentation does not matter
+	for _, t := range []byte{2, 3, 4, 8, 14} {
+		fb, fields, err := spec.Encode(richPacket(t, true), spec.Form{})
+		if err != nil {
+			continue
+		}
+		hdr := 0
+		for _, f := range fields {
+			if f.Kind == spec.FRemLen {
+				hdr = f.End
+			}
+		}
+		for _, f := range fields {
+			if (f.Kind != spec.FPropLen && f.Kind != spec.FVarint) || f.InWill || f.End-f.Start != 1 {
+				continue
+			}
+			for _, pad := range [][]byte{{0x00}, {0x80, 0x00}} {
+				body := append([]byte{}, fb[hdr:f.Start]...)
+				body = append(body, fb[f.Start]|0x80)
+				body = append(body, pad...)
+				body = append(body, fb[f.End:]...)
+				add(fmt.Sprintf("%s.nonminimal-inner-varint@%d+%d", gen.Schemas[t].Name, f.Start, len(pad)), reframe(fb[0], body), t)
+			}
+			break
+		}
+	}
 	add("pingreq.overlong-rl5", unhex("c08080808000"), 12)
 	add("connack.overlong-rl5", append([]byte{ca[0], ca[1] | 0x80, 0x80, 0x80, 0x80, 0x00}, ca[2:]...), 2)
 	add("publish.overlong-rl5", append([]byte{pb[0], pb[1] | 0x80, 0x80, 0x80, 0x80, 0x00}, pb[2:]...), 3)
